@@ -586,6 +586,76 @@ func runExpander(c expCase) (out string, line string) {
 	return out, line
 }
 
+// refExpand is an independent transcription of RFC 9380 §5.3 (expand_message_xmd / _xof) on Go's
+// standard hashes; "PANIC" where the RFC says ABORT (or the requested length is 0 for xmd, which the
+// library refuses by panicking: not a property violation, so the reference mirrors it).
+func refExpand(c expCase) string {
+	i2 := func(n, k int) []byte {
+		b := make([]byte, k)
+		for i := k - 1; i >= 0; i-- {
+			b[i] = byte(n)
+			n >>= 8
+		}
+		return b
+	}
+	if strings.HasPrefix(c.kind, "xmd") {
+		mk := sha256.New
+		if c.kind == "xmd-sha512" {
+			mk = sha512.New
+		}
+		H := func(parts ...[]byte) []byte {
+			h := mk()
+			for _, p := range parts {
+				h.Write(p)
+			}
+			return h.Sum(nil)
+		}
+		dst := c.dst
+		if len(dst) > 255 {
+			dst = H([]byte("H2C-OVERSIZE-DST-"), dst)
+		}
+		b, s := mk().Size(), mk().BlockSize()
+		ell := (c.n + b - 1) / b
+		if ell > 255 || c.n > 65535 || ell == 0 {
+			return "PANIC"
+		}
+		dp := append(append([]byte{}, dst...), byte(len(dst)))
+		b0 := H(make([]byte, s), c.msg, i2(c.n, 2), []byte{0}, dp)
+		bi := H(b0, []byte{1}, dp)
+		out := append([]byte{}, bi...)
+		for i := 2; i <= ell; i++ {
+			x := make([]byte, len(b0))
+			for j := range x {
+				x[j] = b0[j] ^ bi[j]
+			}
+			bi = H(x, []byte{byte(i)}, dp)
+			out = append(out, bi...)
+		}
+		return vh.Hex(out[:c.n])
+	}
+	mk, k := sha3.NewSHAKE128, 128
+	if c.kind == "xof-shake256" {
+		mk, k = sha3.NewSHAKE256, 256
+	}
+	X := func(n int, parts ...[]byte) []byte {
+		h := mk()
+		for _, p := range parts {
+			h.Write(p)
+		}
+		o := make([]byte, n)
+		h.Read(o)
+		return o
+	}
+	dst := c.dst
+	if len(dst) > 255 {
+		dst = X((2*k+7)/8, []byte("H2C-OVERSIZE-DST-"), dst)
+	}
+	if c.n > 65535 {
+		return "PANIC"
+	}
+	return vh.Hex(X(c.n, c.msg, i2(c.n, 2), dst, []byte{byte(len(dst))}))
+}
+
 func genExp(r *vh.Rng) expCase {
 	kinds := []string{"xmd-sha256", "xmd-sha512", "xof-shake128", "xof-shake256"}
 	c := expCase{kind: vh.Pick(r, kinds)}
@@ -809,7 +879,8 @@ func main() {
 			res.Count("expander-"+c.kind, c.text(), xo[i] != "PANIC")
 			got := strings.SplitN(mo[i], " ", 3)[2]
 			if got != xo[i] {
-				res.Mismatch(vh.Mismatch{ID: fmt.Sprintf("X%d", i), Kind: "corr", Key: "expander", Detail: fmt.Sprintf("implementation %s model %s", trunc(xo[i]), trunc(got)), Case: "X " + c.text(), What: "correspondence expand_message (model/H2c.v) with recorded hash table"})
+				ref := refExpand(c)
+				res.Mismatch(vh.Mismatch{ID: fmt.Sprintf("X%d", i), Kind: "corr", Key: "expander", Detail: fmt.Sprintf("implementation %s model %s RFC-9380 reference (harness, Go stdlib hashes) %s", trunc(xo[i]), trunc(got), trunc(ref)), Case: "X " + c.text(), PropFail: ref != xo[i], What: "correspondence expand_message (model/H2c.v) with recorded hash table"})
 			}
 		}
 	}
